@@ -1135,10 +1135,21 @@ class Client():
                                       ('errored', self.respondent.errored),
                                       ('error', self.respondent.error),
                                      ])
-                    if self.respondent.redirectable and self.respondent.redirectant:
+                    redirecting = False
+                    if (self.respondent.redirectable and
+                            self.respondent.redirectant and
+                            self.respondent.headers.get('location')):
                         self.redirects.append(copy.copy(response))
-                        self.redirect()
-                    else:
+                        try:
+                            self.redirect()
+                            redirecting = True
+                        except ValueError as ex:  # invalid or refused location
+                            self.redirects.pop()
+                            response['errored'] = True
+                            response['error'] = str(ex)
+                            self.respondent.redirectant = False
+
+                    if not redirecting:
                         if self.redirects:
                             response['redirects'] = copy.copy(self.redirects)
                         self.redirects = []
